@@ -11,6 +11,7 @@ import (
 	"fmt"
 	"os"
 	"strings"
+	"sync"
 	"testing"
 )
 
@@ -22,60 +23,116 @@ var v1Conc = [][]map[string]string{
 func TestVerifV1TokReplay(t *testing.T) {
 	out := vuOpenOut("VERIF_OUT")
 	defer out.Close()
-	n, nontrivial, bad := 0, 0, 0
-	var samples []json.RawMessage
-	vuVectors(os.Getenv("VERIF_IN"), func(raw []byte) bool {
+	// the vectors are replayed by 8 goroutines at once: tokenising is something many callers do at the same time
+	const W = 8
+	type acc struct {
+		n, nontrivial, bad int
+		samples            []json.RawMessage
+	}
+	accs := make([]*acc, W)
+	for i := range accs {
+		accs[i] = &acc{}
+	}
+	var mu sync.Mutex
+	letter := map[string]bool{"a": true, "E2": true, "C4": true, "X": true}
+	check := func(s string, want [][2]int) (why string) {
+		defer func() {
+			if p := recover(); p != nil {
+				why = fmt.Sprintf("panic: %v", p)
+			}
+		}()
+		toks := Tokenize(s)
+		if len(toks) != len(want) {
+			return fmt.Sprintf("%d tokens, spec %d", len(toks), len(want))
+		}
+		for k, tk := range toks {
+			if tk.Offset != want[k][0] || len(tk.Text) != want[k][1] {
+				return fmt.Sprintf("token %d: offset %d len %d, spec %v", k, tk.Offset, len(tk.Text), want[k])
+			}
+			if tk.Offset < 0 || tk.Offset+len(tk.Text) > len(s) || s[tk.Offset:tk.Offset+len(tk.Text)] != tk.Text {
+				return fmt.Sprintf("token %d: text is not s[%d:%d]", k, tk.Offset, tk.Offset+len(tk.Text))
+			}
+		}
+		return ""
+	}
+	vuParallel(os.Getenv("VERIF_IN"), W, func(wk int, line []byte) {
+		ac := accs[wk]
+		raw := vuDecode(line)
+		if raw == nil {
+			return
+		}
 		var v struct {
 			I []string `json:"i"`
 			T [][2]int `json:"t"`
 		}
-		if json.Unmarshal(raw, &v) != nil {
-			return true
+		if json.Unmarshal(raw, &v) != nil || v.I == nil {
+			return
 		}
-		n++
+		ac.n++
 		if len(v.T) >= 2 {
-			nontrivial++
-			if len(samples) < 3 && nontrivial%2000 == 1 {
-				samples = append(samples, append([]byte(nil), raw...))
+			ac.nontrivial++
+			if len(ac.samples) < 1 && ac.nontrivial%2000 == 1 {
+				ac.samples = append(ac.samples, append([]byte(nil), raw...))
 			}
 		}
 		for variant := range v1Conc {
-			var sb strings.Builder
-			for _, c := range v.I {
-				sb.WriteString(v1Conc[variant][0][c])
-			}
-			s := sb.String()
-			why := ""
-			func() {
-				defer func() {
-					if p := recover(); p != nil {
-						why = fmt.Sprintf("panic: %v", p)
-					}
-				}()
-				toks := Tokenize(s)
-				if len(toks) != len(v.T) {
-					why = fmt.Sprintf("%d tokens, spec %d", len(toks), len(v.T))
-					return
-				}
-				for k, tk := range toks {
-					if tk.Offset != v.T[k][0] || len(tk.Text) != v.T[k][1] {
-						why = fmt.Sprintf("token %d: offset %d len %d, spec %v", k, tk.Offset, len(tk.Text), v.T[k])
-						return
-					}
-					if tk.Offset < 0 || tk.Offset+len(tk.Text) > len(s) || s[tk.Offset:tk.Offset+len(tk.Text)] != tk.Text {
-						why = fmt.Sprintf("token %d: text %q is not s[%d:%d]", k, tk.Text, tk.Offset, tk.Offset+len(tk.Text))
-						return
+			// as enumerated, and scaled: every letter of the class string stands for a run of 300 such letters (a word is a
+			// word however long it is); the spec's tokens are carried over symbol by symbol
+			for _, rep := range []int{1, 300} {
+				var sb strings.Builder
+				o0, o1 := []int{}, []int{} // byte offset of every symbol: as enumerated / in this string
+				b0 := 0
+				for _, c := range v.I {
+					cs := v1Conc[variant][0][c]
+					o0 = append(o0, b0)
+					o1 = append(o1, sb.Len())
+					b0 += len(cs)
+					if letter[c] {
+						sb.WriteString(strings.Repeat(cs, rep))
+					} else {
+						sb.WriteString(cs)
 					}
 				}
-			}()
-			if why != "" {
-				bad++
-				if bad <= 6 {
-					out.Emit(map[string]interface{}{"kind": "mismatch", "src": s, "why": why, "spec": json.RawMessage(raw)})
+				o0, o1 = append(o0, b0), append(o1, sb.Len())
+				at := map[int]int{}
+				for k := range o0 {
+					at[o0[k]] = k
+				}
+				want := make([][2]int, len(v.T))
+				for k, tk := range v.T {
+					a, aok := at[tk[0]]
+					b, bok := at[tk[0]+tk[1]]
+					if !aok || !bok {
+						want = nil
+						break
+					}
+					want[k] = [2]int{o1[a], o1[b] - o1[a]}
+				}
+				if want == nil {
+					continue // a token of the spec that does not sit on symbol boundaries (an invalid byte): not scaled
+				}
+				s := sb.String()
+				if why := check(s, want); why != "" {
+					ac.bad++
+					if ac.bad <= 2 {
+						mu.Lock()
+						src := s
+						if len(src) > 80 {
+							src = src[:80] + "..."
+						}
+						out.Emit(map[string]interface{}{"kind": "mismatch", "src": src, "letters_times": rep, "why": why, "spec": json.RawMessage(raw)})
+						mu.Unlock()
+					}
 				}
 			}
 		}
-		return true
 	})
-	out.Emit(map[string]interface{}{"kind": "summary", "vectors": n, "nontrivial": nontrivial, "mismatches": bad, "samples": samples})
+	tot := &acc{}
+	for _, a := range accs {
+		tot.n += a.n
+		tot.nontrivial += a.nontrivial
+		tot.bad += a.bad
+		tot.samples = append(tot.samples, a.samples...)
+	}
+	out.Emit(map[string]interface{}{"kind": "summary", "vectors": tot.n, "nontrivial": tot.nontrivial, "mismatches": tot.bad, "samples": tot.samples})
 }
